@@ -33,8 +33,9 @@ Theorem C09_meaning : forall F, no_leak F = true ->
 Proof. exact no_leak_sound. Qed.
 Print Assumptions C09_meaning.
 
-(** the fact bases are not empty: HMAC outputs and caller texts exist and reach many values *)
+(** the fact bases are not empty: HMAC outputs and caller texts exist and reach many values (the bounds are far below
+    what the current tree gives, so that merging the two Sum call sites into one helper, say, does not trip them) *)
 Example C09_nonvacuous :
-  (2 <= List.length (f_src_hmac SsaNative.facts) /\ 2 <= List.length (f_src_hmac SsaWasm.facts) /\
-   100 <= PS.cardinal (c_hmac (search SsaNative.facts)) /\ 500 <= PS.cardinal (c_caller (search SsaNative.facts)))%nat.
+  (1 <= List.length (f_src_hmac SsaNative.facts) /\ 1 <= List.length (f_src_hmac SsaWasm.facts) /\
+   30 <= PS.cardinal (c_hmac (search SsaNative.facts)) /\ 200 <= PS.cardinal (c_caller (search SsaNative.facts)))%nat.
 Proof. vm_compute. repeat split; repeat constructor. Qed.
